@@ -367,3 +367,42 @@ def r5_7(rep):
     # arguments that are deliberately NOT part of the snapshot: the `-include <other headers>` added afterwards
     later = [c for c in exts if c["_i"] > s["_i"]]
     rep.note("clang_args-extensions-after-snapshot", [b.canon(c["args"][0], 4)[:80] for c in later])
+
+
+@RULES.rule("R5.8", "the clang fallback evaluates a macro as a full expression of its own type", floor=2)
+def r5_8(rep):
+    """`--clang-macro-fallback` lets clang evaluate a macro by parsing a scratch function whose body is the macro.  The macro has to be
+    a full-expression statement (`int main() { MACRO; }`): put into a context with a type of its own (`return MACRO;` from
+    `int main`, an initialiser, an argument) clang wraps it in an implicit conversion and evaluates the CONVERTED value:
+    `(U64C(1) << 40)` becomes 0, `U64C(5)*1024*1024*1024` becomes 1073741824, a floating macro becomes an integer."""
+    prog = rep.prog
+    b = rep.need(prog.fn("ir::var::parse_macro_clang_fallback"), "ir::var::parse_macro_clang_fallback")
+    from c17 import format_template
+    tpls = []
+    seen_sites = set()
+    for n in b.nodes:
+        if (b.macro_name(n) or "") != "format":
+            continue
+        site = b.macro_site(n)
+        if site in seen_sites:
+            continue
+        seen_sites.add(site)
+        tpl = format_template(prog, site)
+        if tpl is None:
+            continue
+        pieces, holes = tpl
+        text = "{}".join(pieces)
+        if "main" in text:
+            tpls.append((n, text))
+    rep.need(tpls, "the scratch translation unit text in parse_macro_clang_fallback")
+    for x, t in tpls:
+        i = t.find("{}")
+        before = t[:i].rstrip()
+        after = t[i + 2:].lstrip()
+        stmt = i >= 0 and before.endswith(("{", ";")) and after.startswith(";")
+        rep.check(stmt, "fallback-macro-is-a-statement", "`%s`: the macro stands alone as an expression statement" % t if stmt else
+                  "`%s`: the macro is placed in a typed context (`.. %s`), clang evaluates it after converting it to that type" %
+                  (t, before[-12:].strip()), b.loc(x))
+    # the evaluated cursor is reached by descending through first children only (no re-typing on the way is decided by the text above)
+    ev = [c for c in b.calls(lambda n: n["k"] == "MCall" and n.get("name") == "evaluate")]
+    rep.check(bool(ev), "fallback-evaluates-the-expression", "the expression cursor is handed to clang's evaluator", b.loc(b.root))
